@@ -5,73 +5,183 @@ package quic
 import (
 	"context"
 	"errors"
+	"time"
 
 	"github.com/refraction-networking/uquic/internal/ackhandler"
 	"github.com/refraction-networking/uquic/internal/flowcontrol"
 	"github.com/refraction-networking/uquic/internal/monotime"
 	"github.com/refraction-networking/uquic/internal/protocol"
+	"github.com/refraction-networking/uquic/internal/utils"
 	"github.com/refraction-networking/uquic/internal/wire"
 )
 
-// Exporters for the C04 caller-level driver (flowcall): real SendStream / ReceiveStream / framer
-// wired together the way connection.go wires them (see Conn.onHasStreamData etc.). Add-only.
-
-// VerifFCHarness plays the part of the connection for the streams: it is their streamSender.
-type VerifFCHarness struct {
-	framer    *framer
-	Completed []protocol.StreamID
-	ConnData  int
+// Exporters for the C04 caller-level driver (flowcall). Add-only.
+//
+// VerifFCConn is a real *Conn built far enough (the same constructors newConnection /
+// newClientConnection call: conn-ID manager and generator, preSetup) to run the real
+// handleTransportParameters / applyTransportParameters, the real streams map with the real
+// Conn.newFlowController closure, the real framer and the real frame dispatch of the streams map.
+// There is no packer, no crypto and no run loop: the driver plays the run loop.
+type VerifFCConn struct {
+	C *Conn
 }
 
-func VerifFCNew(connFC flowcontrol.ConnectionFlowController) *VerifFCHarness {
-	return &VerifFCHarness{framer: newFramer(connFC)}
+type verifFCRunner struct{}
+
+func (verifFCRunner) Add(protocol.ConnectionID, packetHandler) bool                    { return true }
+func (verifFCRunner) Remove(protocol.ConnectionID)                                     {}
+func (verifFCRunner) ReplaceWithClosed([]protocol.ConnectionID, []byte, time.Duration) {}
+func (verifFCRunner) AddResetToken(protocol.StatelessResetToken, packetHandler)        {}
+func (verifFCRunner) RemoveResetToken(protocol.StatelessResetToken)                    {}
+
+var (
+	verifFCDestConnID = protocol.ParseConnectionID([]byte{0xde, 0xad, 0xbe, 0xef})
+	verifFCSrcConnID  = protocol.ParseConnectionID([]byte{1, 2, 3, 4})
+	verifFCOrigDest   = protocol.ParseConnectionID([]byte{9, 9, 9, 9, 9, 9, 9, 9})
+)
+
+// VerifFCNewConn builds the connection with our configuration (validated by the real populateConfig).
+func VerifFCNewConn(client bool, conf *Config) *VerifFCConn {
+	ctx, cancel := context.WithCancelCause(context.Background())
+	c := &Conn{
+		ctx:                 ctx,
+		ctxCancel:           cancel,
+		config:              populateConfig(conf),
+		handshakeDestConnID: verifFCDestConnID,
+		origDestConnID:      verifFCOrigDest,
+		srcConnIDLen:        verifFCSrcConnID.Len(),
+		perspective:         protocol.PerspectiveServer,
+		logger:              utils.DefaultLogger,
+		version:             protocol.Version1,
+	}
+	if client {
+		c.perspective = protocol.PerspectiveClient
+	}
+	runner := verifFCRunner{}
+	c.connIDManager = newConnIDManager(
+		verifFCDestConnID,
+		func(token protocol.StatelessResetToken) { runner.AddResetToken(token, nil) },
+		runner.RemoveResetToken,
+		c.queueControlFrame,
+	)
+	var clientDest *protocol.ConnectionID
+	if !client {
+		clientDest = &verifFCOrigDest
+	}
+	c.connIDGenerator = newConnIDGenerator(
+		runner,
+		verifFCSrcConnID,
+		clientDest,
+		newStatelessResetter(nil),
+		connRunnerCallbacks{
+			AddConnectionID:    func(protocol.ConnectionID) {},
+			RemoveConnectionID: runner.Remove,
+			ReplaceWithClosed:  runner.ReplaceWithClosed,
+		},
+		c.queueControlFrame,
+		&protocol.DefaultConnectionIDGenerator{ConnLen: verifFCSrcConnID.Len()},
+	)
+	c.preSetup()
+	return &VerifFCConn{C: c}
 }
 
-// the four methods of streamSender, with the bodies of the Conn methods of the same name
-// (minus scheduleSending and the streams map)
-func (h *VerifFCHarness) onHasConnectionData() { h.ConnData++ }
-func (h *VerifFCHarness) onHasStreamData(id protocol.StreamID, str *SendStream) {
-	h.framer.AddActiveStream(id, str)
-}
-func (h *VerifFCHarness) onHasStreamControlFrame(id protocol.StreamID, str streamControlFrameGetter) {
-	h.framer.AddStreamWithControlFrames(id, str)
-}
-func (h *VerifFCHarness) onStreamCompleted(id protocol.StreamID) {
-	h.Completed = append(h.Completed, id)
-	h.framer.RemoveActiveStream(id)
-}
-
-func (h *VerifFCHarness) NewSendStream(id protocol.StreamID, fc flowcontrol.StreamFlowController) *SendStream {
-	return newSendStream(context.Background(), id, h, fc, false)
-}
-
-func (h *VerifFCHarness) NewReceiveStream(id protocol.StreamID, fc flowcontrol.StreamFlowController) *ReceiveStream {
-	return newReceiveStream(id, h, fc)
+// PeerParameters: the peer's transport parameters arrive (the real handleTransportParameters; a client
+// applies them at handshake completion, which the driver triggers right away).
+func (v *VerifFCConn) PeerParameters(p *wire.TransportParameters) error {
+	c := v.C
+	p.InitialSourceConnectionID = c.handshakeDestConnID
+	if c.perspective == protocol.PerspectiveClient {
+		p.OriginalDestinationConnectionID = c.origDestConnID
+	}
+	if err := c.handleTransportParameters(p); err != nil {
+		return err
+	}
+	if c.perspective == protocol.PerspectiveClient {
+		c.applyTransportParameters()
+	}
+	return nil
 }
 
-// QueueControlFrame is what connection.go does with the MAX_DATA frame it builds from
-// connFlowController.GetWindowUpdate.
-func (h *VerifFCHarness) QueueControlFrame(f wire.Frame) { h.framer.QueueControlFrame(f) }
+func (v *VerifFCConn) ConnFC() flowcontrol.ConnectionFlowController { return v.C.connFlowController }
 
-// Pack composes the frames of one packet payload of at most maxLen bytes.
-func (h *VerifFCHarness) Pack(maxLen protocol.ByteCount, now monotime.Time) ([]ackhandler.Frame, []ackhandler.StreamFrame) {
-	frames, streamFrames, _ := h.framer.Append(nil, nil, maxLen, now, protocol.Version1)
+// OpenBidi / OpenUni: the application opens a stream (streamsMap → Conn.newFlowController).
+func (v *VerifFCConn) OpenBidi() (*SendStream, *ReceiveStream, protocol.StreamID, error) {
+	s, err := v.C.streamsMap.OpenStream()
+	if err != nil {
+		return nil, nil, 0, err
+	}
+	return s.sendStr, s.receiveStr, s.StreamID(), nil
+}
+
+func (v *VerifFCConn) OpenUni() (*SendStream, protocol.StreamID, error) {
+	s, err := v.C.streamsMap.OpenUniStream()
+	if err != nil {
+		return nil, 0, err
+	}
+	return s, s.StreamID(), nil
+}
+
+// PeerOpens: the peer opens stream id (here by a STREAM_DATA_BLOCKED frame, which creates the stream
+// and carries no data). Returns the halves that exist on our side.
+func (v *VerifFCConn) PeerOpens(id protocol.StreamID) (*SendStream, *ReceiveStream, error) {
+	if err := v.C.streamsMap.HandleStreamDataBlockedFrame(&wire.StreamDataBlockedFrame{StreamID: id}); err != nil {
+		return nil, nil, err
+	}
+	h, err := v.C.streamsMap.getReceiveStream(id)
+	if err != nil || h == nil {
+		return nil, nil, err
+	}
+	switch s := h.(type) {
+	case *Stream:
+		return s.sendStr, s.receiveStr, nil
+	case *ReceiveStream:
+		return nil, s, nil
+	}
+	return nil, nil, errors.New("verif: unexpected stream type")
+}
+
+// frames from the peer, through the streams map as Conn.handleFrame does
+func (v *VerifFCConn) HandleStreamFrame(f *wire.StreamFrame, now monotime.Time) error {
+	return v.C.streamsMap.HandleStreamFrame(f, now)
+}
+
+func (v *VerifFCConn) HandleResetStreamFrame(f *wire.ResetStreamFrame, now monotime.Time) error {
+	return v.C.streamsMap.HandleResetStreamFrame(f, now)
+}
+
+func (v *VerifFCConn) HandleMaxStreamDataFrame(f *wire.MaxStreamDataFrame) error {
+	return v.C.streamsMap.HandleMaxStreamDataFrame(f)
+}
+
+// HandleMaxDataFrame: `case *wire.MaxDataFrame:` of Conn.handleFrame
+func (v *VerifFCConn) HandleMaxDataFrame(f *wire.MaxDataFrame) {
+	v.C.connFlowController.UpdateSendWindow(f.MaximumData)
+}
+
+// ReceiveStreamGone says whether the streams map has already deleted the stream (frames are then dropped).
+func (v *VerifFCConn) ReceiveStreamGone(id protocol.StreamID) bool {
+	h, err := v.C.streamsMap.getReceiveStream(id)
+	return err == nil && h == nil
+}
+
+// QueueMaxData is the MAX_DATA step of Conn.sendPackets / maybeSendAckOnlyPacket.
+func (v *VerifFCConn) QueueMaxData(now monotime.Time) protocol.ByteCount {
+	c := v.C
+	offset := c.connFlowController.GetWindowUpdate(now)
+	if offset > 0 {
+		c.framer.QueueControlFrame(&wire.MaxDataFrame{MaximumData: offset})
+	}
+	return offset
+}
+
+// Pack composes the frames of one packet payload of at most maxLen bytes with the connection's framer.
+func (v *VerifFCConn) Pack(maxLen protocol.ByteCount, now monotime.Time) ([]ackhandler.Frame, []ackhandler.StreamFrame) {
+	frames, streamFrames, _ := v.C.framer.Append(nil, nil, maxLen, now, protocol.Version1)
 	return frames, streamFrames
 }
 
-func VerifFCUpdateSendWindow(s *SendStream, limit protocol.ByteCount) { s.updateSendWindow(limit) }
-
-func VerifFCHandleStreamFrame(s *ReceiveStream, f *wire.StreamFrame, now monotime.Time) error {
-	return s.handleStreamFrame(f, now)
-}
-
-func VerifFCHandleResetStreamFrame(s *ReceiveStream, f *wire.ResetStreamFrame, now monotime.Time) error {
-	return s.handleResetStreamFrame(f, now)
-}
-
-func VerifFCHandleStopSending(s *SendStream, code StreamErrorCode) {
-	s.handleStopSendingFrame(&wire.StopSendingFrame{StreamID: s.streamID, ErrorCode: code})
-}
+func VerifFCSendDump(s *SendStream) string       { return flowcontrol.VerifDump(s.flowController) }
+func VerifFCReceiveDump(s *ReceiveStream) string { return flowcontrol.VerifDump(s.flowController) }
 
 var errVerifFCDone = errors.New("verif: case finished")
 
